@@ -13,6 +13,7 @@ pub mod cont;
 // group D (C07 / C11 / C17 / C19)
 pub mod tio;
 pub mod filters;
+pub mod bcj2m;
 pub mod partition;
 pub mod options;
 pub mod mem;
